@@ -1,4 +1,6 @@
 import ZapVerif.Proofs.EntryWF
+import ZapVerif.Proofs.Unesc
+import ZapVerif.Proofs.Num
 /-! # C02 — JSON output decodes to exactly the logged values, in order, at the right nesting -/
 namespace ZapVerif.C02
 open ZapVerif ZapVerif.Esc ZapVerif.Json ZapVerif.Enc ZapVerif.Entry
@@ -46,5 +48,34 @@ theorem error_basic (k basic : Bytes) :
 theorem error_verbose (k basic v : Bytes) (h : v ≠ basic) :
     addTo (.error k (.mk (.ok basic) (some v) false [])) = [strPrim k basic, strPrim (sfx k "Verbose") v] := by
   simp [addTo, encErr, errCall, h]
+
+/-- strings byte for byte: decoding the escaped body gives back the logged bytes with each invalid UTF-8 byte
+    replaced by U+FFFD exactly once (and nothing else changed) -/
+theorem string_recoverable (s : Bytes) : unescape (esc s) = some (sanitize s.length s) := unescape_escape s.length s
+
+/-- an ASCII string (no byte ≥ 0x80) is recovered unchanged -/
+theorem sanitize_ascii (fuel : Nat) (s : Bytes) (hf : s.length ≤ fuel) (h : ∀ b ∈ s, b < 128) : sanitize fuel s = s := by
+  induction fuel generalizing s with
+  | zero =>
+    have : s = [] := by simpa using hf
+    subst this; simp [sanitize]
+  | succ f ih =>
+    cases s with
+    | nil => simp [sanitize]
+    | cons b r =>
+      have hb : ¬ b ≥ 128 := by
+        have := h b (by simp)
+        simp [UInt8.lt_iff_toNat_lt, UInt8.le_iff_toNat_le] at this ⊢; omega
+      simp only [sanitize, hb, if_false]
+      rw [ih r (by simpa using hf) (fun x hx => h x (by simp [hx]))]
+
+/-- a byte that starts no valid UTF-8 sequence becomes exactly one U+FFFD and decoding resumes at the next byte -/
+theorem sanitize_invalid_once (fuel : Nat) (b : UInt8) (r : Bytes) (hb : b ≥ 128) (hv : validLen (b :: r) = none) :
+    sanitize (fuel + 1) (b :: r) = replacement ++ sanitize fuel r := by
+  simp [sanitize, hb, hv]
+
+/-- integers over the full 64-bit range (indeed every Int / Nat): the decimal text decodes to the value -/
+theorem int_recoverable (i : Int) : intOf (fmtInt i) = i := intOf_fmtInt i
+theorem uint_recoverable (n : Nat) : natOf (fmtNat n) = n := natOf_fmtNat n
 
 end ZapVerif.C02
